@@ -425,6 +425,12 @@ def gen_case(rng, max_n, real=False, lang_only=False, tabs=False, hetero=False, 
     else:
         hist = gen_history(rng, n, labels=False, deps=True, p_root=0.2, p_merge=0.3)
     ids = [r["id"] for r in hist]
+    # a fraction of the histories declares branch labels (any revision may declare one; unique names)
+    labelled = rng.random() < 0.35
+    if labelled:
+        for i, r in enumerate(hist):
+            if rng.random() < 0.4:
+                r["labels"] = ["%s%d" % (rng.choice(["ledger", "lbl_x", "Billing", "l"]), i)]
     bodies = gen_bodies(rng, hist, lang_only=lang_only, tabs=tabs, hetero=hetero, bindtext=bindtext, plain_names=lang_only and rng.random() < 0.5)
     cmd = rng.choice(["upgrade", "upgrade", "upgrade", "downgrade", "downgrade"])
 
@@ -446,7 +452,33 @@ def gen_case(rng, max_n, real=False, lang_only=False, tabs=False, hetero=False, 
             start = start[:1]
         anc = sorted(anc_closure(hist, start))
         target = rng.choice(["base", "base", rng.choice(anc), rng.choice(anc), "-1", "-2"])
-    return {"shape": shape, "hist": hist, "bodies": bodies, "cmd": cmd, "start": start, "target": target}
+    # how the user spells the revisions: the range start (offline only; online the database is simply at that state)
+    # by full id, by the branch label the start revision declares, by label@id, or by a unique prefix (>= 4 characters);
+    # the target (same string online and offline) by full id, by prefix, or as label@head
+    by_id = {r["id"]: r for r in hist}
+
+    def prefix(rid):
+        for k in range(4, len(rid)):
+            if sum(1 for x in ids if x.startswith(rid[:k])) == 1:
+                return rid[:k]
+        return None
+
+    def spell_start(rid):
+        lb = by_id[rid].get("labels") or []
+        r = rng.random()
+        if lb and r < 0.75:
+            return lb[0] if rng.random() < 0.8 else "%s@%s" % (lb[0], rid)
+        if prefix(rid) and r < 0.8:
+            return prefix(rid)
+        return rid
+
+    start_spelled = [spell_start(x) if (by_id[x].get("labels") or rng.random() < 0.6) else x for x in start]
+    if target in by_id and prefix(target) and rng.random() < 0.3:
+        target = prefix(target)
+    all_labels = [l for r in hist for l in (r.get("labels") or [])]
+    if cmd == "upgrade" and all_labels and rng.random() < 0.25:
+        target = "%s@head" % rng.choice(all_labels)
+    return {"shape": shape, "hist": hist, "bodies": bodies, "cmd": cmd, "start": start, "start_spelled": start_spelled, "target": target}
 
 
 def in_language(ops):
